@@ -1249,15 +1249,18 @@ void new_interactive (socket_fd_t socket_fd) {
   }
 
   if (i >= max_users) {
+    /* the table always grows by 50 slots; max_users must never exceed the allocated size
+     * (the first network user gets i == 1 with max_users == 0, so "i + 50" would be 51) */
+    int new_max_users = max_users + 50;
     if (all_users) {
       /* allocate 50 more user slots */
-      all_users = RESIZE (all_users, max_users + 50, interactive_t *, TAG_USERS, "new_user_handler");
+      all_users = RESIZE (all_users, new_max_users, interactive_t *, TAG_USERS, "new_user_handler");
     }
     else {
       /* first time allocation */
-      all_users = CALLOCATE (50, interactive_t *, TAG_USERS, "new_user_handler");
+      all_users = CALLOCATE (new_max_users, interactive_t *, TAG_USERS, "new_user_handler");
     }
-    while (max_users < i + 50)
+    while (max_users < new_max_users)
       all_users[max_users++] = 0;
   }
 
